@@ -35,6 +35,14 @@ def msm_scenarios(tier, rng):
     for n in small_lengths:
         for (s, b) in (combos if tier == "thorough" else rng.sample(combos, 4)):
             sc.append({"kind": "msm", "curve": "bls12_381_g1", "n": n, "scal": s, "base": b, "threads": rng.choice(threads)})
+    # short scalars (1..3 used bytes, top bit of the highest byte set): the window count depends on the longest scalar of a chunk
+    short = [("byte_top", "gen"), ("word_top", "seq"), ("three_top", "repeated"), ("short_mix", "seq")]
+    for n in ([1, 2, 3, 4, 5, 31, 32, 40, 70] if tier == "quick" else list(range(1, 71)) + [255, 1000]):
+        for (s, b) in short:
+            sc.append({"kind": "msm", "curve": "bls12_381_g1", "n": n, "scal": s, "base": b, "threads": rng.choice(threads)})
+    for n in (3, 33):
+        for (s, b) in short:
+            sc.append({"kind": "msm", "curve": "bn256_g1", "n": n, "scal": s, "base": b, "threads": rng.choice(threads)})
     for n in ([255, 1000] if tier == "quick" else [100, 255, 256, 257, 1000, 2980, 2981, 4096]):
         for (s, b) in rng.sample(combos, 3 if tier == "quick" else 6):
             sc.append({"kind": "msm", "curve": "bls12_381_g1", "n": n, "scal": s, "base": b, "threads": rng.choice(threads)})
